@@ -31,8 +31,11 @@ for p in /verif/selftest/mutants/*.patch; do
   run $p $prop $exp "mutants/$n"
 done
 for d in /verif/seeded/*/; do
-  n=$(basename $d); prop=$(echo $n | cut -d- -f1)
-  run $d/patch.diff $prop 1 "seeded/$n"
+  n=$(basename $d)
+  case $n in
+    preserving-*) prop=$(echo $n | cut -d- -f2); run $d/patch.diff $prop 0 "seeded/$n" ;;
+    *) prop=$(echo $n | cut -d- -f1); run $d/patch.diff $prop 1 "seeded/$n" ;;
+  esac
 done
 echo "" >> $out
 echo "wrote $out"
